@@ -90,7 +90,41 @@ pub fn check_invariants(jobs: &JobList) -> Result<(), (String, String)> {
             return Err(("jobid".into(), format!("%{} does not resolve to the job at index {i}", i + 1)));
         }
     }
+    // `%name` / `%?name`: the unique job whose name starts with / contains the
+    // string; not found without a match, ambiguous with more than one
+    use yash_env::job::id::FindError;
+    for probe in ["s", "sl", "sleep", "sleep 1", "sleep 10", "cat", "c", "v", "vi", "x", "zz", "a|", "1"] {
+        for (prefix, substring) in [(true, false), (false, true)] {
+            let _ = substring;
+            if prefix && probe.chars().all(|c| c.is_ascii_digit()) {
+                continue; // `%1` is a job number
+            }
+            let id = if prefix { format!("%{probe}") } else { format!("%?{probe}") };
+            let matching: Vec<usize> = all
+                .iter()
+                .filter(|(_, j)| if prefix { j.name.starts_with(probe) } else { j.name.contains(probe) })
+                .map(|(i, _)| *i)
+                .collect();
+            let want = match matching.as_slice() {
+                [] => Err(FindError::NotFound),
+                [i] => Ok(*i),
+                _ => Err(FindError::Ambiguous),
+            };
+            let got = yash_env::job::id::parse(&id).map_err(|e| format!("{e:?}")).map(|j| j.find(jobs));
+            if got != Ok(want) {
+                return Err((
+                    "jobid".into(),
+                    format!("{id} resolves to {got:?}, the jobs whose names match are {matching:?}"),
+                ));
+            }
+        }
+    }
     Ok(())
+}
+
+/// Job names with shared prefixes and substrings, a function of the pid.
+pub fn job_name(pid: i32) -> &'static str {
+    ["sleep 1", "sleep 10", "cat file", "scat", "echo a|cat", "sl", "vi", "view x"][pid.rem_euclid(8) as usize]
 }
 
 // ------------------------------------------------------ (a) event histories
@@ -253,7 +287,7 @@ pub fn run_history(h: &History, hs: &mut HistStats) -> Option<(String, String)> 
                     if suspended {
                         job.state = ProcessState::stopped(SIGSTOP);
                     }
-                    job.name = format!("job{}", pid.0);
+                    job.name = job_name(pid.0).to_string();
                     let index = jobs.insert(job);
                     if let Some(o) = old_index
                         && o != index
